@@ -94,3 +94,23 @@ def productions():
 
 
 STARTS = {"__Expr": "Expr", "__Rule": "Rule"}
+
+
+# how each terminal of the table is spelled in rule text (class tokens: one representative spelling)
+TEXT = {
+    "OP_EQ1": "=", "OP_EQ2": "==", "OP_NEQ": "!=", "OP_GT": ">", "OP_LT": "<", "OP_GTE": ">=", "OP_LTE": "<=",
+    "OP_ADD": "+", "OP_SUB": "-", "OP_MULT": "*", "OP_DIV": "/", "OP_REM": "%", "OP_NOT": "!",
+    "OP_BIT_AND": "&", "OP_BIT_OR": "|", "OP_BIT_XOR": "^", "OP_META": "@",
+    "KWD_AND": "and", "KWD_OR": "or", "KWD_IF": "if", "KWD_THEN": "then", "KWD_ELSE": "else",
+    "KWD_IS_SOME": "is_some", "KWD_IS_NONE": "is_none", "KWD_NONE": "none", "KWD_SOME": "some",
+    "KWD_INT": "int", "KWD_FLOAT": "float", "KWD_DEC": "dec", "KWD_CONTAINS": "contains", "KWD_IN": "in",
+    "KWD_DATE_TIME": "date_time", "KWD_DATETIME": "datetime", "KWD_DURATION": "duration",
+    "KWD_TO_UPPER": "to_upper", "KWD_TO_LOWER": "to_lower", "KWD_UPPERCASE": "uppercase", "KWD_LOWERCASE": "lowercase",
+    "KWD_TRIM": "trim", "KWD_ROUND": "round", "KWD_FLOOR": "floor", "KWD_FRACT": "fract",
+    "KWD_YEAR": "year", "KWD_MONTH": "month", "KWD_WEEK": "week", "KWD_DAY": "day", "KWD_HOUR": "hour",
+    "KWD_MINUTE": "minute", "KWD_SECOND": "second",
+    "COMMA": ",", "COLON": ":", "SEMICOLON": ";", "DOT": ".", "LPAREN": "(", "RPAREN": ")",
+    "LBRACKET": "[", "RBRACKET": "]", "LBRACE": "{", "RBRACE": "}",
+    "STRING": '"s"', "INT": "i5", "HEX_INT": "0x1f", "OCT_INT": "0o17", "BIN_INT": "0b101", "FLOAT": "f1.5", "DECIMAL": "d2.5",
+    "TRUE": "true", "FALSE": "false", "IDENT": "abc", "INDEX": "7",
+}
